@@ -21,7 +21,7 @@ over the absorbed entries; promote_and_insert refreshes a covering entry with th
 max_int_secs.
 """
 CLAUSES = ['a: watermarks committed on success only; failures retried with the same content (restored from the last success and nothing else)', 'b: purge accounts for in-flight subscriptions', 'c: coalescing keeps the newest change id',
-           'd: expired subscriptions removed']
+           'd: expired subscriptions removed', 'e: one report-due predicate; a report covers exactly the events it commits; table and request buffers compacted in step']
 NOT_DECIDED = ['eventual delivery (liveness)', 'min/max interval timing', 'identical content of a retried report', 'restarts with persisted subscriptions']
 MIN_OBLIGATIONS = {'q': 22, 'd': 22, 'r': 22}
 
@@ -172,6 +172,37 @@ def check(R):
         bad = [outer.where(f) for (f, to) in tr.success if set(outer.ret_blocks()) & prims.reach(outer, (to,), cut_blocks=set(somes))]
         R.expect('P3', outer.fn, 'an expired subscription always gets a removal verdict', bool(tr.success) and not bad, 'is_expired -> Some("expired")', f'{bad}')
 
+    # ---- e --------------------------------------------------------------------
+    with R.clause('e'):
+        # one "is a report due" predicate: the reporter selects a subscription (and arms its timer) with Subscription::is_report_due /
+        # report_due_at; whether an EMPTY report goes out as the liveness report is decided by the same predicate - a private
+        # comparison that disagrees at the boundary restarts the liveness clock without anything on the wire
+        se = R.body(RC + '::should_send_if_empty')
+        rd_ = prims.result_defs(se)
+        R.expect('P5', se.fn, 'the liveness decision is Subscription::is_report_due itself (the predicate the reporter selects with)',
+                 bool(rd_) and all(k == 'call' and (pl_.get('r') or pl_.get('f')) == SUB + 'Subscription::is_report_due' for bb, k, pl_ in rd_),
+                 'is_report_due(next_reported_at)', f'the result is computed by {[(k, pl_.get("f") if isinstance(pl_, dict) else pl_) for bb, k, pl_ in rd_][:3]}: not the shared predicate')
+        event_range_rule(R)
+        # subscriptions and their subscribe-request buffers are two vectors paired by index: whatever removes an entry from one removes the
+        # entry of the same index from the other with the SAME operation (swap_remove moves the last element into the hole, retain / remove
+        # shift - mixing them pairs the survivors with each other's requests)
+        rm = [b for b in bodies_of(F, SUB + 'Subscriptions::remove')]
+        ops_sub, ops_buf = set(), set()
+        for b in rm:
+            for t in b.calls():
+                f_ = t.d.get('f', '')
+                if not f_.endswith(('::swap_remove', '::remove', '::retain', '::retain_mut', '::truncate', '::pop', '::drain')):
+                    continue
+                s_ = prims.sources(b, t.d['a'][0])
+                if any(f.startswith('subscriptions:') for f in src_fields(s_)):
+                    ops_sub.add(f_.split('::')[-1])
+                else:
+                    ops_buf.add(f_.split('::')[-1])
+        R.floor('removal operations in Subscriptions::remove', len(ops_sub | ops_buf), 1)
+        R.expect('P5', SUB + 'Subscriptions::remove', 'the subscription table and the parallel request-buffer vector are compacted by the same operation', ops_sub == ops_buf and len(ops_sub) == 1,
+                 f'{sorted(ops_sub)} on both', f'subscriptions: {sorted(ops_sub)}, buffers: {sorted(ops_buf)} - the two vectors fall out of step: a surviving subscription reports on another subscriber\'s paths')
+
+
 
 def _locals(body, operand):
     out = set()
@@ -190,3 +221,18 @@ def _locals(body, operand):
                 if q:
                     work.append(q[0])
     return out
+
+def event_range_rule(R):
+    F = R.facts
+    # a subscription report covers exactly the events up to the watermark it will commit: in InteractionModel::report_data every
+    # EventReader is bounded by the context's (max_seen_event_number, next_max_seen_event_number] - never by constants (an event
+    # emitted while a chunked priming is under way would be sent now and again with the first regular report)
+    rpd = async_body(R, IM + '::report_data')
+    ers = rpd.calls('im::events::EventReader::new')
+    R.floor('EventReader::new in report_data', len(ers), 1)
+    for n_, t in enumerate(ers):
+        lo, hi = prims.sources(rpd, t.d['a'][0]), prims.sources(rpd, t.d['a'][1])
+        R.expect('P10', rpd.fn, f'event range #{n_ + 1} of a subscription report is (max_seen_event_number, next_max_seen_event_number] of its context',
+                 RC + '::max_seen_event_number' in src_calls(lo) and RC + '::next_max_seen_event_number' in src_calls(hi) and not [c for c in src_consts(lo | hi) if c is not None],
+                 'EventReader::new(rctx.max_seen_event_number(), rctx.next_max_seen_event_number(), ..)',
+                 f'bounds derive from {sorted(src_calls(lo))[:2]} / {sorted(src_calls(hi))[:2]} and constants {sorted(str(c) for c in src_consts(lo | hi) if c is not None)[:3]}', rpd.where(t.bb))
